@@ -71,6 +71,10 @@ func genList(t *rapid.T) ListCase {
 	nm := []int{0, 0, 0, 0, 1, 1, 1, 1, 2, 2}[pick(t, "nmut", 10)]
 	for i := 0; i < nm; i++ {
 		label := fmt.Sprintf("mut%d", i)
+		if pick(t, label+".ws", 4) == 0 {
+			c.Muts = append(c.Muts, Mut{Kind: "wsmsg", A: pick(t, label+".wsa", 16)})
+			continue
+		}
 		for {
 			m := genMut(t, label, k)
 			if m.Kind != "hash" && m.Kind != "sigalg" { // the format carries no algorithm codes
@@ -148,6 +152,6 @@ func checkList(t *testing.T, c ListCase) (v harness.Verdict) {
 // List is the signed-log-list clause of C05.
 var List = harness.Define(harness.Opts{
 	Name:  "loglist",
-	Rule:  "generated log-list documents (0-2 operators, 0-2 logs each, unknown members; one in eight malformed) signed with SHA-256 by a pool key of any kind, 0-2 mutations (document bit flip, key swap / nil / value key, signature value mutations); loglist3.NewFromSignedJSON returns a list iff the reference accepts (RSA or ECDSA key) and the document parses, and the list equals NewFromJSON's. Non-trivial: a mutation or a key other than P-256",
+	Rule:  "generated log-list documents (0-2 operators, 0-2 logs each, unknown members; one in eight malformed) signed with SHA-256 by a pool key of any kind, 0-2 mutations (document bit flip, white space / line ending / BOM appended or prepended to the document, key swap / nil / value key, signature value mutations); loglist3.NewFromSignedJSON returns a list iff the reference accepts (RSA or ECDSA key) and the document parses, and the list equals NewFromJSON's. Non-trivial: a mutation or a key other than P-256",
 	Quick: 3000, Thorough: 12000,
 }, genList, checkList)
